@@ -1,4 +1,4 @@
-\* C11 behaviour generation (tlc -simulate): one directory, <= 4 operations, every action recorded
+\* C11 extended history class (rename the directory away), exhaustive with liveness
 SPECIFICATION Spec
 CONSTANTS
   D = {"A"}
@@ -7,13 +7,13 @@ CONSTANTS
   MaxConfs = 0
   MaxWids = 1
   STARTS = {TRUE, FALSE}
-  WithTmp = TRUE
+  WithTmp = FALSE
   WithShortage = FALSE
-  WithRenameAway = FALSE
+  WithRenameAway = TRUE
   FIX_CREATE = TRUE
   FIX_READD = TRUE
   FIX_STALE = TRUE
   FIX_RENAMEDIR = TRUE
-  RECORD = TRUE
-INVARIANTS TypeOK Bounded WatchesOK EmitRow
-
+  RECORD = FALSE
+INVARIANTS TypeOK Bounded WatchesOK
+PROPERTIES Converges ErrConverges Settles ConfigureFresh
